@@ -187,7 +187,10 @@ def judge(ctx, focus, p, r, real):
             want = A.total8(p, d) * 2
             if want != scores16[i]:
                 ctx.fail('score_mismatch', f'reported score {scores16[i] / A.SCALE} of result {i} is not the model score {want / A.SCALE} of the returned derivation', dict(pj, deriv=repr(d)))
-    if focus == 'c01' and nbest == 1 and head_uniform and comp is not None:
+    if focus == 'c01' and real and not head_uniform:
+        ctx.fail('shipped_grammar_not_head_uniform', f'the {real} rule functions returned results with different head directions in one search '
+                 '(the first-pop-wins chart is sound only for head-uniform grammars)', pj)
+    if focus == 'c01' and nbest == 1 and (head_uniform or real) and comp is not None:
         pops_monotone(ctx, p, r)
         if r['status'] == 0:
             best = max(A.total8(p, d) for d in comp) * 2 if comp else None
